@@ -406,8 +406,48 @@ class Check(Property):
                         r2 = r ** conv_exp(t, s)
                         if exps(r2) != {k: x * rr * s for k, x in A.items() if x * rr * s != 0}:
                             v.append(f"{tag}: (u**a)**b != u**(a*b) for b={s}")
+            elif f in ("add", "remove", "rename") and layer in ("uc", "ph"):
+                # the operand's hash has been computed above (ha): a result must not inherit a stale cached hash
+                hash(a)
+                want = dict(A)
+                ok = True
+                if f == "add":
+                    want[c["k"]] = want.get(c["k"], Fraction(0)) + Fraction(c["r"])
+                    if c["k"] not in A and want[c["k"]] == 0:
+                        ok = False          # popping an absent key: KeyError, as for a dict
+                elif f == "remove":
+                    ok = all(k in A for k in c["ks"])
+                    for k in c["ks"]:
+                        want.pop(k, None)
+                else:
+                    ok = c["k"] in A
+                    if ok:
+                        want[c["k2"]] = want.pop(c["k"])
+                want = {k: x for k, x in want.items() if x != 0}
+                try:
+                    if f == "add":
+                        r = a.add(c["k"], conv_exp(t, Fraction(c["r"])))
+                    elif f == "remove":
+                        r = a.remove(c["ks"])
+                    else:
+                        r = a.rename(c["k"], c["k2"])
+                except KeyError:
+                    r = None
+                    if ok:
+                        v.append(f"{tag}: raised KeyError")
+                if r is not None:
+                    if not ok:
+                        pass
+                    else:
+                        if exps(r) != want:
+                            v.append(f"{tag}: exponents {exps(r)} != {want}")
+                        e = expect_obj(want)
+                        if layer == "ph":
+                            e = build(layer, [[k, frac_s(x)] for k, x in want.items()], t)
+                        if not (r == e) or not (e == r) or (layer != "ph" and hash(r) != hash(e)):
+                            v.append(f"{tag}: the result {r!r} does not compare/hash equal to a container built from the same exponents")
         except Exception as exc:  # noqa: BLE001
-            if f in ("mul", "div", "eq", "pow", "inv"):
+            if f in ("mul", "div", "eq", "pow", "inv", "add", "remove", "rename"):
                 v.append(f"{tag}: raised {type(exc).__name__}: {exc}")
         if snapshot(a) != sa or (b is not None and snapshot(b) != sb):
             v.append(f"{tag}: operand mutated")
